@@ -591,6 +591,14 @@ func genBytes(t *rapid.T, c *Case) {
 			c.Ops[rapid.SampledFrom(itemOps).Draw(t, "bigListAt")].A = genSpan("items")
 		}
 	}
+	// a set emptied by Clear (non-nil, empty) receives a long item list in ONE call
+	if rapid.IntRange(0, 5).Draw(t, "refill") == 0 {
+		d := rapid.IntRange(0, 3).Draw(t, "refillVar")
+		n := rapid.SampledFrom([]int{7, 8, 9, 10, 16, 17, 33, 64, 65, 129}).Draw(t, "refillN")
+		at := rapid.IntRange(0, len(c.Ops)).Draw(t, "refillAt")
+		grp := []Op{{K: "add", D: d, A: []int{rapid.IntRange(0, 255).Draw(t, "refillSeed")}}, {K: "clear", D: d}, {K: "add", D: d, A: span(rapid.IntRange(0, 255).Draw(t, "refillLo"), n, 256)}}
+		c.Ops = append(c.Ops[:at:at], append(grp, c.Ops[at:]...)...)
+	}
 	// var y becomes the complement of var x (optionally less or plus one value),
 	// then the two meet in a binary operation in both operand orders
 	if rapid.IntRange(0, 3).Draw(t, "partition") > 0 {
